@@ -5,56 +5,66 @@ Import ListNotations.
 Open Scope string_scope.
 Set Implicit Arguments.
 
-Local Notation rs := (@rd_s Qc).
-Definition rall : rd Qc (list Qc) := @rd_rest Qc.
+Section G.
+  Variable F : Type.
+  Variable O : Ops F.
+  Variable T : Trig F.
+  Variable A : Approx F.
+  Variable toNat : F -> nat.
 
-Definition tab_unit13 (T : Trig Qc) (U : Unit Qc) (sfx : string) : list (string * (list Qc -> val)) := [
-  ("full_turn" ++ sfx, run0 (S:=Qc) (os (full_turn U)));
-  ("turn_div_2" ++ sfx, run0 (S:=Qc) (os (turn_div_2 O U)));
-  ("turn_div_3" ++ sfx, run0 (S:=Qc) (os (turn_div_3 O U)));
-  ("turn_div_4" ++ sfx, run0 (S:=Qc) (os (turn_div_4 O U)));
-  ("turn_div_6" ++ sfx, run0 (S:=Qc) (os (turn_div_6 O U)));
-  ("normalize" ++ sfx, run1 rs (fun a => os (ang_normalize O U a)));
-  ("normalize_signed" ++ sfx, run1 rs (fun a => os (ang_normalize_signed O U a)));
-  ("opposite" ++ sfx, run1 rs (fun a => os (ang_opposite O U a)));
-  ("bisect" ++ sfx, run2 rs rs (fun a b => os (ang_bisect O U a b)));
-  ("to_rad" ++ sfx, run1 rs (fun a => os (to_rad U a)));
-  ("of_rad" ++ sfx, run1 rs (fun a => os (of_rad U a)));
-  ("sin" ++ sfx, run1 rs (fun a => os (ang_sin T U a)));
-  ("cos" ++ sfx, run1 rs (fun a => os (ang_cos T U a)));
-  ("tan" ++ sfx, run1 rs (fun a => os (ang_tan T U a)));
-  ("sin_cos" ++ sfx, run1 rs (fun a => let sc := ang_sin_cos T U a in vq [fst sc; snd sc]));
-  ("csc" ++ sfx, run1 rs (fun a => os (ang_csc O T U a)));
-  ("sec" ++ sfx, run1 rs (fun a => os (ang_sec O T U a)));
-  ("cot" ++ sfx, run1 rs (fun a => os (ang_cot O T U a)));
-  ("asin" ++ sfx, run1 rs (fun x => os (ang_asin T U x)));
-  ("acos" ++ sfx, run1 rs (fun x => os (ang_acos T U x)));
-  ("atan" ++ sfx, run1 rs (fun x => os (ang_atan T U x)));
-  ("atan2" ++ sfx, run2 rs rs (fun y x => os (ang_atan2 T U y x)));
-  ("add" ++ sfx, run2 rs rs (fun a b => os (ang_add O a b)));
-  ("sub" ++ sfx, run2 rs rs (fun a b => os (ang_sub O a b)));
-  ("neg" ++ sfx, run1 rs (fun a => os (ang_neg O a)));
-  ("mul_s" ++ sfx, run2 rs rs (fun a s => os (ang_mul_s O a s)));
-  ("div_s" ++ sfx, run2 rs rs (fun a s => os (ang_div_s O a s)));
-  ("div" ++ sfx, run2 rs rs (fun a b => os (ang_div O a b)));
-  ("rem" ++ sfx, run2 rs rs (fun a b => os (ang_rem O a b)));
-  ("sum" ++ sfx, run1 rall (fun l => os (fold_left (add O) l (zero O))))
+
+  Local Notation rs := (@rd_s F).
+Definition rall : rd F (list F) := @rd_rest F.
+
+Definition tab_unit13 (T : Trig F) (U : Unit F) (sfx : string) : list (string * (list F -> gval F)) := [
+  ("full_turn" ++ sfx, grun0 (S:=F) (gs (full_turn U)));
+  ("turn_div_2" ++ sfx, grun0 (S:=F) (gs (turn_div_2 O U)));
+  ("turn_div_3" ++ sfx, grun0 (S:=F) (gs (turn_div_3 O U)));
+  ("turn_div_4" ++ sfx, grun0 (S:=F) (gs (turn_div_4 O U)));
+  ("turn_div_6" ++ sfx, grun0 (S:=F) (gs (turn_div_6 O U)));
+  ("normalize" ++ sfx, grun1 rs (fun a => gs (ang_normalize O U a)));
+  ("normalize_signed" ++ sfx, grun1 rs (fun a => gs (ang_normalize_signed O U a)));
+  ("opposite" ++ sfx, grun1 rs (fun a => gs (ang_opposite O U a)));
+  ("bisect" ++ sfx, grun2 rs rs (fun a b => gs (ang_bisect O U a b)));
+  ("to_rad" ++ sfx, grun1 rs (fun a => gs (to_rad U a)));
+  ("of_rad" ++ sfx, grun1 rs (fun a => gs (of_rad U a)));
+  ("sin" ++ sfx, grun1 rs (fun a => gs (ang_sin T U a)));
+  ("cos" ++ sfx, grun1 rs (fun a => gs (ang_cos T U a)));
+  ("tan" ++ sfx, grun1 rs (fun a => gs (ang_tan T U a)));
+  ("sin_cos" ++ sfx, grun1 rs (fun a => let sc := ang_sin_cos T U a in GQ [fst sc; snd sc]));
+  ("csc" ++ sfx, grun1 rs (fun a => gs (ang_csc O T U a)));
+  ("sec" ++ sfx, grun1 rs (fun a => gs (ang_sec O T U a)));
+  ("cot" ++ sfx, grun1 rs (fun a => gs (ang_cot O T U a)));
+  ("asin" ++ sfx, grun1 rs (fun x => gs (ang_asin T U x)));
+  ("acos" ++ sfx, grun1 rs (fun x => gs (ang_acos T U x)));
+  ("atan" ++ sfx, grun1 rs (fun x => gs (ang_atan T U x)));
+  ("atan2" ++ sfx, grun2 rs rs (fun y x => gs (ang_atan2 T U y x)));
+  ("add" ++ sfx, grun2 rs rs (fun a b => gs (ang_add O a b)));
+  ("sub" ++ sfx, grun2 rs rs (fun a b => gs (ang_sub O a b)));
+  ("neg" ++ sfx, grun1 rs (fun a => gs (ang_neg O a)));
+  ("mul_s" ++ sfx, grun2 rs rs (fun a s => gs (ang_mul_s O a s)));
+  ("div_s" ++ sfx, grun2 rs rs (fun a s => gs (ang_div_s O a s)));
+  ("div" ++ sfx, grun2 rs rs (fun a b => gs (ang_div O a b)));
+  ("rem" ++ sfx, grun2 rs rs (fun a b => gs (ang_rem O a b)));
+  ("sum" ++ sfx, grun1 rall (fun l => gs (fold_left (add O) l (zero O))))
 ].
 
 (* exact values of the constants at binary32 (what cast yields for f32): checked against the implementation *)
-Definition c32 : list (string * (list Qc -> val)) := [
-  ("f32_full_turn", run0 (S:=Qc) (VQ [13176795 # 2097152]));
-  ("f32_deg_per_rad", run0 (S:=Qc) (VQ [15019745 # 262144]));
-  ("f32_rad_per_deg", run0 (S:=Qc) (VQ [9370165 # 536870912]));
-  ("f32_full_turn_deg", run0 (S:=Qc) (VQ [360 # 1]));
-  ("f64_full_turn", run0 (S:=Qc) (VQ [q_two_pi]));
-  ("f64_deg_per_rad", run0 (S:=Qc) (VQ [q_deg_per_rad]));
-  ("f64_rad_per_deg", run0 (S:=Qc) (VQ [q_rad_per_deg]));
-  ("f64_full_turn_deg", run0 (S:=Qc) (VQ [360 # 1]))
+Definition c32 : list (string * (list F -> gval F)) := [
+  ("f32_full_turn", grun0 (S:=F) (GQ [ofQ O (13176795 # 2097152)]));
+  ("f32_deg_per_rad", grun0 (S:=F) (GQ [ofQ O (15019745 # 262144)]));
+  ("f32_rad_per_deg", grun0 (S:=F) (GQ [ofQ O (9370165 # 536870912)]));
+  ("f32_full_turn_deg", grun0 (S:=F) (GQ [ofQ O (360 # 1)]));
+  ("f64_full_turn", grun0 (S:=F) (GQ [ofQ O (q_two_pi)]));
+  ("f64_deg_per_rad", grun0 (S:=F) (GQ [ofQ O (q_deg_per_rad)]));
+  ("f64_rad_per_deg", grun0 (S:=F) (GQ [ofQ O (q_rad_per_deg)]));
+  ("f64_full_turn_deg", grun0 (S:=F) (GQ [ofQ O (360 # 1)]))
 ].
 
-Definition tab_c13 (o : Orc) : list (string * (list Qc -> val)) :=
-  let T := TrigQ o in tab_unit13 T (URad O) "" ++ tab_unit13 T (UDeg O) "_deg" ++ c32.
+Definition gtab_c13 : list (string * (list F -> gval F)) := tab_unit13 T (URad O) "" ++ tab_unit13 T (UDeg O) "_deg" ++ c32.
+End G.
+
+Definition tab_c13 (o : Orc) : list (string * (list Qc -> val)) := qtab (gtab_c13 OpsQ (TrigQ o)).
 
 Definition run_c13 : runner := fun f o args =>
   match dispatch (tab_c13 o) f with Some h => h args | None => VBad end.
